@@ -3,6 +3,7 @@ import LnModel.Ident
 import LnModel.FsExec
 import LnModel.Adapters
 import LnModel.SpecIO
+import LnModel.EmitIO
 /-! Line-protocol driver: one s-expression request per line on stdin, one canonical
 s-expression result per line on stdout. -/
 namespace Ln.Driver
@@ -122,7 +123,7 @@ def stepFs (req : Sexp) : Option Sexp :=
   | _ => none
 
 def step (req : Sexp) : Sexp :=
-  match ((stepFs req).orElse (fun _ => stepAdapters req)).orElse (fun _ => SpecIO.step req) with
+  match (((stepFs req).orElse (fun _ => stepAdapters req)).orElse (fun _ => SpecIO.step req)).orElse (fun _ => EmitIO.step req) with
   | some r => r
   | none =>
   match req with
